@@ -34,6 +34,12 @@ def check_tie_pass(ck, sources, label, max_programs=None, violation_limit=3):
             cnt["real-checker-crash-or-export-failed"] = cnt.get("real-checker-crash-or-export-failed", 0) + 1
             continue
         m = ml.get(f"t{i}", "(no-result)").strip()
+        if "(fe-total 1)" in m:
+            k3 = "premise of C07_front_end_is_total_computable holds (no_oracle || ty_depth_bound <= 64)"
+            cnt[k3] = cnt.get(k3, 0) + 1
+        elif "(fe-total 0)" in m:
+            k3 = "premise of C07_front_end_is_total_computable FAILS"
+            cnt[k3] = cnt.get(k3, 0) + 1
         if m.startswith("(same)"):
             kind = "accepted: same typed program"
             if "(safe-fragment 1)" in m:
